@@ -81,10 +81,21 @@ def make_meta(spec: dict) -> dict:
         model.update(spec["meta_override"])
     if "model_desc" in spec:          # C12: mirror a complete model description
         model = dict(spec["model_desc"])
+    models = {"M": model}
+    if spec.get("ins2") is not None or spec.get("outs2") is not None:
+        # a second model "N" of the same simulator: same attribute names, other kinds (hybrid only)
+        ins2, outs2 = spec.get("ins2", ins), spec.get("outs2", outs)
+        attrs2 = list(ins2) + [a for a in outs2 if a not in ins2]
+        m2: Dict[str, Any] = {"public": True, "params": [], "attrs": attrs2}
+        if spec.get("any_inputs"):
+            m2["any_inputs"] = True
+        m2["trigger"] = [a for a, k in ins2.items() if k == "trigger"]
+        m2["non-persistent"] = [a for a, k in outs2.items() if k == "nonpersistent"]
+        models["N"] = m2
     meta: Dict[str, Any] = {
         "api_version": spec.get("api_version", "3.0"),
         "type": typ,
-        "models": {"M": model},
+        "models": models,
     }
     if spec.get("set_events"):
         meta["set_events"] = True
@@ -122,10 +133,12 @@ class ScriptedSim(mosaik_api_v3.Simulator):
         return self.meta
 
     def create(self, num, model, **params):
-        ents = self.spec.get("entities", ["e0"])
-        start = getattr(self, "_created", 0)
+        em = self.spec.get("ent_model", {})
+        ents = [e for e in self.spec.get("entities", ["e0"]) if em.get(e, "M") == model]
+        done = self.__dict__.setdefault("_created_by_model", {})
+        start = done.get(model, 0)
         out = [{"eid": e, "type": model} for e in ents[start:start + num]]
-        self._created = start + num
+        done[model] = start + num
         return out
 
     def setup_done(self):
@@ -222,8 +235,10 @@ class ScriptedSim(mosaik_api_v3.Simulator):
             L = 1 + H(self.seed, self.sid, time, "L") % max(1, Lmax)
         elif isinstance(L, dict):
             L = L.get(str(time), L.get("*", 1))
+        em = self.spec.get("ent_model", {})
         for eid in self.spec.get("entities", ["e0"]):
-            for attr, kind in outs.items():
+            outs_e = self.spec.get("outs2", outs) if em.get(eid, "M") == "N" else outs
+            for attr, kind in outs_e.items():
                 if kind == "persistent":
                     emit = True
                 else:
